@@ -199,6 +199,28 @@ func serverChain(c c19Case) tls.Certificate {
 		issuer = forgedCA
 	case "self-signed":
 		selfSigned = true
+	case "stuffed-selfsigned-ca", "stuffed-selfsigned", "stuffed-other-ca":
+		// chain stuffing: the server proves possession of the key of an invalid first certificate and appends a genuine
+		// certificate for the host (public material anybody can copy; the server does not hold its key)
+		gk := newKey()
+		gtpl := *tpl
+		gtpl.SerialNumber = nextSerial()
+		gder, gerr := x509.CreateCertificate(rand.Reader, &gtpl, bundleCA.cert, &gk.PublicKey, bundleCA.key)
+		if gerr != nil {
+			panic(gerr)
+		}
+		chainExtra = append(chainExtra, gder)
+		switch c.Kind {
+		case "stuffed-selfsigned-ca":
+			selfSigned = true
+			tpl.IsCA, tpl.BasicConstraintsValid = true, true
+			tpl.KeyUsage |= x509.KeyUsageCertSign
+		case "stuffed-selfsigned":
+			selfSigned = true
+		case "stuffed-other-ca":
+			issuer = otherCA
+			chainExtra = append(chainExtra, bundleCA.der)
+		}
 	case "wrong-name", "name-only-in-cn":
 		tpl.DNSNames, tpl.IPAddresses = nil, nil
 		if c.Kind == "name-only-in-cn" {
@@ -599,7 +621,7 @@ func c19Gen(rt *rapid.T) c19Case {
 		return c
 	}
 	c.Kind = rapid.SampledFrom([]string{"valid", "valid", "valid-intermediate-sent", "valid-wildcard", "intermediate-missing", "other-ca", "forged-issuer-name", "self-signed",
-		"wrong-name", "wrong-name", "name-only-in-cn", "expired", "not-yet-valid"}).Draw(rt, "kind")
+		"wrong-name", "wrong-name", "name-only-in-cn", "expired", "not-yet-valid", "stuffed-selfsigned-ca", "stuffed-selfsigned", "stuffed-other-ca"}).Draw(rt, "kind")
 	parts := strings.Split(c.Host, ".")
 	switch c.Kind {
 	case "valid-wildcard":
@@ -626,7 +648,7 @@ func c19Gen(rt *rapid.T) c19Case {
 		c.Redirect = true
 	}
 	if c.Kind == "valid" && c.Target != "metadata" && rapid.IntRange(0, 2).Draw(rt, "swap") == 0 {
-		c.SwapTo = rapid.SampledFrom([]string{"self-signed", "other-ca", "forged-issuer-name", "intermediate-missing"}).Draw(rt, "swapto")
+		c.SwapTo = rapid.SampledFrom([]string{"self-signed", "other-ca", "forged-issuer-name", "intermediate-missing", "stuffed-selfsigned-ca"}).Draw(rt, "swapto")
 	}
 	return c
 }
